@@ -189,12 +189,15 @@ type World struct {
 // record of another (what copying one record over another's key amounts to on a real back end).
 type AliasStorage struct {
 	nodeenrollment.Storage
+	mu         sync.Mutex // the listener's handshakes reach storage concurrently
 	TokenAlias map[string]*types.ServerLedActivationToken // storage key -> the record (a copy taken at transplant time) that answers
 }
 
 func (a *AliasStorage) Remove(ctx context.Context, m nodeenrollment.MessageWithId) error {
 	if t, ok := m.(*types.ServerLedActivationToken); ok {
+		a.mu.Lock()
 		delete(a.TokenAlias, t.Id)
+		a.mu.Unlock()
 	}
 	return a.Storage.Remove(ctx, m)
 }
@@ -209,7 +212,10 @@ func (a *AliasStorage) LoadByNodeId(ctx context.Context, m nodeenrollment.Messag
 
 func (a *AliasStorage) Load(ctx context.Context, m nodeenrollment.MessageWithId) error {
 	if t, ok := m.(*types.ServerLedActivationToken); ok {
-		if src, ok := a.TokenAlias[t.Id]; ok {
+		a.mu.Lock()
+		src, ok := a.TokenAlias[t.Id]
+		a.mu.Unlock()
+		if ok {
 			proto.Reset(t)
 			proto.Merge(t, src)
 			return nil
